@@ -69,6 +69,13 @@ func (v *Vue) evaluate(ctx VueContext, nodes []*html.Node, depth int) ([]*html.N
 				continue
 			}
 
+			// A v-else-if / v-else element reached here was not selected by its chain (chosen
+			// members are evaluated by the chain walker). Drop it before looking at v-for:
+			// an unselected member that also carries v-for must not run as a loop of its own.
+			if !helpers.HasAttr(node, "v-if") && (helpers.HasAttr(node, "v-else-if") || helpers.HasAttr(node, "v-else")) {
+				continue
+			}
+
 			if helpers.HasAttr(node, "v-for") {
 				chainResult, skipCount, err := v.evalVFor(ctx, node, nodes[i:], depth)
 				if err != nil {
